@@ -156,7 +156,7 @@ def _times(chk, only=None):
         def _build_rhs_impl(self):
             return lambda t, y: y * (1.0 + t)       # time dependent on purpose ("user rhs" is in the property's quantifier)
 
-    def run(method, forward):
+    def run(method, forward, t0=0.0, tf=1.5):
         rec = {}
         y0 = _np.array([1.0, 2.0])
         saved = (rk._FixedStepRK._integrate_fixed_rk, rk._DOP853._integrate_dop853, sym._integrate_symplectic)
@@ -208,10 +208,10 @@ def _times(chk, only=None):
                 hs = HS()
                 if not isinstance(hs, _HamiltonianSystemProtocol):
                     raise AssertionError("stub does not satisfy the Hamiltonian protocol")
-                sol = base._propagate_dynsys(hs, _np.arange(10.0, 16.0), 0.0, 1.5, forward=forward, steps=4, method="symplectic",
+                sol = base._propagate_dynsys(hs, _np.arange(10.0, 16.0), t0, tf, forward=forward, steps=4, method="symplectic",
                                              order=4)
             else:
-                sol = base._propagate_dynsys(Sys(), y0, 0.0, 1.5, forward=forward, steps=4, method=method, order=8)
+                sol = base._propagate_dynsys(Sys(), y0, t0, tf, forward=forward, steps=4, method=method, order=8)
         finally:
             rk._FixedStepRK._integrate_fixed_rk, rk._DOP853._integrate_dop853, sym._integrate_symplectic = saved
         return sol, rec
@@ -222,6 +222,16 @@ def _times(chk, only=None):
                 continue
 
             def th(method=method, forward=forward):
+                # a span that does not start at zero: the stamps are still the signed requested times (for forward = -1
+                # non-positive and decreasing), not times re-based at t0
+                sol2, _ = run(method, forward, 0.5, 2.0)
+                want2 = forward * _np.linspace(0.5, 2.0, 4)
+                if not _np.array_equal(_np.asarray(sol2.times, float), want2):
+                    raise Refuted(f"time-stamps for a span starting at t0 = 0.5: returned {list(map(float, sol2.times))}, want "
+                                  f"forward*linspace(0.5, 2.0) = {list(want2)}",
+                                  f"_propagate_dynsys(t0=0.5, tf=2.0, method={method!r}, forward={forward}); for forward=-1 the "
+                                  f"stamps must be non-positive and decreasing",
+                                  inputs={"method": method, "forward": forward, "t0": 0.5, "tf": 2.0})
                 sol, rec = run(method, forward)
                 want = forward * _np.linspace(0.0, 1.5, 4)
                 if not _np.array_equal(_np.asarray(sol.times, float), want):
@@ -344,6 +354,7 @@ def _sympl_event_times(chk):
                 def until(**kw):
                     g = _np.asarray(kw["t_values"], float)
                     rec["grid"] = g
+                    rec["direction"] = kw.get("direction")
                     t_hit = 0.5 * (g[1] + g[2])              # a time of the grid the low-level routine integrates over
                     rec["t_hit"] = t_hit
                     return (True, t_hit, _np.ones(6), None) if hit else (False, 0.0, _np.zeros(6), _np.zeros((len(g), 6)))
@@ -351,10 +362,19 @@ def _sympl_event_times(chk):
                 sym._integrate_symplectic_until_event = until
                 sym._ExtendedSymplectic._compile_event_function = lambda self, f: f
                 try:
+                    from hiten.algorithms.types.configs import EventConfig
                     sol = base._propagate_dynsys(HS(), _np.zeros(6), 0.0, 1.5, forward=forward, steps=4, method="symplectic",
-                                                 order=4, event_fn=lambda t, y: 0.0)
+                                                 order=4, event_fn=lambda t, y: 0.0,
+                                                 event_cfg=EventConfig(direction=-1, terminal=True))
                 finally:
                     sym._integrate_symplectic_until_event, sym._ExtendedSymplectic._compile_event_function = saved
+                if rec.get("direction") != -1:
+                    # the Runge-Kutta families receive the requested direction unchanged (it refers to the progress of the
+                    # integration); 'the same for fixed-step, adaptive and symplectic integrators' (C11)
+                    raise Refuted(f"symplectic propagation with an event, forward={forward}: the event driver receives direction "
+                                  f"{rec.get('direction')!r} for the requested -1", "the requested crossing direction is altered "
+                                  "on the way to the symplectic event driver (the Runge-Kutta wrappers pass it unchanged)",
+                                  inputs={"forward": forward, "direction": -1})
                 if not _np.array_equal(rec["grid"], forward * _np.linspace(0.0, 1.5, 4)):
                     raise Refuted("symplectic-event-grid", str(rec["grid"]))
                 want = _np.array([0.0, rec["t_hit"]]) if hit else forward * _np.linspace(0.0, 1.5, 4)
@@ -365,7 +385,7 @@ def _sympl_event_times(chk):
                                   "hit and no-hit paths of _ExtendedSymplectic.integrate sign their times differently",
                                   replay=_REPLAY_SYMPL_EVENT, inputs={"forward": forward, "hit": hit})
     chk.obl("_propagate_dynsys(method=symplectic, event): times are physical (signed once) on the hit path and on the no-hit path, "
-            "forward = +1 and -1", "K2 wiring (real _propagate_dynsys + real integrate(), low-level routine recorded)",
+            "forward = +1 and -1; the requested crossing direction reaches the driver unchanged", "K2 wiring (real _propagate_dynsys + real integrate(), low-level routine recorded)",
             [BA + ":_propagate_dynsys", SY + ":_ExtendedSymplectic.integrate"], "B4 exact evaluation", th)
 
 
@@ -835,6 +855,57 @@ def _dense_phase_bounded(chk):
                             "float arithmetic", "counted_as_proved": False})
 
 
+def _system_propagate(chk):
+    """System.propagate (the public entry of 'propagating with direction -1'): direction, span, grid size, method, order and the
+    extra integrator settings of THIS request reach _propagate_dynsys - over histories that alternate the direction"""
+    import itertools
+    import hiten.algorithms.types.services.system as ss
+    import hiten.algorithms.types.services.base as sb
+    from pyvc.core import real_self
+
+    def th():
+        reqs = [dict(tf=1.5, steps=7, method="adaptive", order=8, forward=1, extra_kwargs=None),
+                dict(tf=1.5, steps=7, method="adaptive", order=8, forward=-1, extra_kwargs=None),
+                dict(tf=2.5, steps=9, method="fixed", order=6, forward=-1, extra_kwargs={"rtol": 1e-9, "atol": 1e-11})]
+        saved = (ss._propagate_dynsys, ss.Trajectory)
+        seen = []
+
+        def prop(**kw):
+            seen.append(kw)
+            return ("SOL", kw["forward"], kw["tf"], kw["steps"])
+        ss._propagate_dynsys = prop
+        ss.Trajectory = types.SimpleNamespace(from_solution=lambda solution=None, **k: solution if solution is not None else k.get("sol"))
+        try:
+            for hist in itertools.product(range(3), repeat=3):
+                svc = real_self(ss._SystemsDynamicsService, dynsys="DYN")
+                sb._DynamicsServiceBase.__init__(svc, "SYSTEM")
+                for k in hist:
+                    r = reqs[k]
+                    seen.clear()
+                    out = ss._SystemsDynamicsService.propagate(svc, _np.array([1.0, 0, 0, 0, 1.0, 0]), **r)
+                    if out != ("SOL", r["forward"], r["tf"], r["steps"]):
+                        raise Refuted("System.propagate: the trajectory returned is not the one of this request (direction, span, "
+                                      "grid)", f"request history {[(reqs[i]['forward'], reqs[i]['tf']) for i in hist]} (forward, tf): "
+                                      f"request {(r['forward'], r['tf'], r['steps'])} returned {out[1:]}",
+                                      inputs={"history": [reqs[i] for i in hist]})
+                    for kw in seen:
+                        bad = {n: (kw.get(n, "<absent>"), r[n]) for n in ("tf", "steps", "method", "order", "forward")
+                               if kw.get(n, "<absent>") != r[n]}
+                        for n, v in (r["extra_kwargs"] or {}).items():
+                            if kw.get(n, "<absent>") != v:
+                                bad[n] = (kw.get(n, "<absent>"), v)
+                        if kw.get("dynsys") != "DYN" or bad:
+                            raise Refuted(f"System.propagate does not hand {sorted(bad) or ['dynsys']} of the request to the "
+                                          f"propagation: (received, requested) = {bad}", "request parameters lost on the way",
+                                          inputs={"request": {k2: repr(v2) for k2, v2 in r.items()}})
+        finally:
+            ss._propagate_dynsys, ss.Trajectory = saved
+    chk.obl("System.propagate (service): over all request histories of length 3 (forward +1 / -1, two spans, extra integrator "
+            "settings) direction, span, grid, method, order and extras of THIS request reach _propagate_dynsys and its result is "
+            "returned", "K2 wiring (closed histories, bounded-exhaustive)",
+            ["hiten.algorithms.types.services.system:_SystemsDynamicsService.propagate"], "B4 exact evaluation", th)
+
+
 def run(chk):
     loader.install()
     chk.under_contract(BA + ":_DirectedSystem.__init__", BA + ":_DirectedSystem._build_rhs_impl", BA + ":_propagate_dynsys",
@@ -848,6 +919,8 @@ def run(chk):
                     "dense-output phase of adaptive drivers beyond the bounded instance")
     _directed(chk)
     _times(chk)
+    chk.under_contract("hiten.algorithms.types.services.system:_SystemsDynamicsService.propagate")
+    _system_propagate(chk)
     _zero_span(chk)
     _ham_directed(chk)
     _sympl_event_times(chk)
